@@ -90,7 +90,23 @@ def u1(ctx):
                               "raise requires `existing_name != name` with existing_name = %s[uid][0]" % REV,
                               "the DuplicateUidError refusal is not conditioned on the holder's name differing from the target name: "
                               "overwriting a resource with its own UID is refused, or a real conflict is not"))
-        # every normal exit with a uid given: lookup executed (no bypass other than uid None / check disabled)
+        # every normal exit with a uid given passes the lookup (no bypass other than uid None / check disabled)
+        from .common import test_polarity_absent
+        byp = []
+        for t in cfg.nodes:
+            if t.kind != "test":
+                continue
+            lab = test_polarity_absent(t.ast, fi.params[1] if len(fi.params) > 1 else "uid")
+            if lab:
+                byp.append((t, lab))
+            if dotted(t.ast) == "self._check_for_duplicate_uids":
+                byp.append((t, "f"))
+        blocked = [(t, m, l) for t, lab in byp for m, l in t.succ if l == lab]
+        r = cfg.reachable([cfg.entry], block_nodes=lookups, block_edges=blocked)
+        obs.append(ctx.ob(cfg.exit.id not in r, fi.qualname, fi.where, "every normal return looked the uid up",
+                          "no path returns without the reverse-map lookup (unless uid is None or the check is disabled)",
+                          "%s can return normally without consulting %s for a given uid (e.g. when replace_etag matches): an overwrite that "
+                          "changes a resource's UID to one held by another resource is accepted" % (fi.short, REV)))
     # nobody switches the check off
     offs = []
     for f in ctx.P.all_funcs():
@@ -231,4 +247,55 @@ def u4(ctx):
     ok = bool(end) and bool(loops) and any(m.id in cfg.reachable([x for x, l in loops[0].succ if l == "done"]) for m in end)
     obs.append(ctx.ob(ok, fi.qualname, fi.where, "raises KeyError when no component has a UID",
                       "falls through to raise KeyError", "get_uid does not raise KeyError when no component carries a UID"))
+    return obs
+
+
+@rule("C06", "U5", floor=4, kind="S",
+      desc="tuple layout agreement: every reader of the reverse map compares the component in which the writers store "
+           "the file name")
+def u5(ctx):
+    obs = []
+    for cq in STORES:
+        ci = ctx.P.cls(cq)
+        # writer layout
+        pos = None
+        for f in ci.methods.values():
+            for n in walk_local(f.node):
+                if isinstance(n, ast.Assign) and isinstance(n.targets[0], ast.Subscript) and dotted(n.targets[0].value) == REV and isinstance(n.value, ast.Tuple):
+                    for i, e in enumerate(n.value.elts):
+                        if isinstance(e, ast.Name) and e.id == "name":
+                            pos = i
+        if pos is None:
+            raise AnalysisError("%s: writer of %s with a tuple containing `name` not found" % (cq, REV))
+        nread = 0
+        for f in ci.methods.values():
+            cfg = ctx.cfg(f)
+            du = DefUse(cfg)
+            for t in [x for x in cfg.nodes if x.kind == "test" and isinstance(x.ast, ast.Compare) and len(x.ast.ops) == 1
+                      and isinstance(x.ast.ops[0], (ast.Eq, ast.NotEq))]:
+                sides = [t.ast.left, t.ast.comparators[0]]
+                if not any(isinstance(s_, ast.Name) and s_.id == "name" for s_ in sides):
+                    continue
+                other = [s_ for s_ in sides if not (isinstance(s_, ast.Name) and s_.id == "name")][0]
+                idx = None
+                from_rev = False
+                if isinstance(other, ast.Subscript) and isinstance(other.slice, ast.Constant) and REV in src(other.value):
+                    idx, from_rev = other.slice.value, True
+                elif isinstance(other, ast.Name):
+                    for d in du.reaching(t, other.id):
+                        if d.value is not None and REV in src(d.value):
+                            from_rev = True
+                            if d.index:
+                                idx = d.index[0]
+                            elif isinstance(d.value, ast.Subscript) and isinstance(d.value.slice, ast.Constant):
+                                idx = d.value.slice.value
+                if not from_rev:
+                    continue
+                nread += 1
+                obs.append(ctx.ob(idx == pos, f.qualname, where(f, t), "reader compares component %d (the name) of %s" % (pos, REV.split(".")[-1]),
+                                  "`%s` uses component %s" % (src(t.ast), idx),
+                                  "`%s` compares component %s of a %s entry with the file name, but the writers store the name in component %d: "
+                                  "the comparison never holds, so entries are never released (or conflicts never detected)" % (src(t.ast), idx, REV.split(".")[-1], pos)))
+        if nread < 2:
+            raise AnalysisError("%s: only %d readers of %s compared with `name`" % (cq, nread, REV))
     return obs
